@@ -110,11 +110,11 @@ def run(ctx, broken):
     p_ = Prog(); ws_ = [p_.w(rng.fe()) for _ in range(4)]
     for _ in range(20):
         p_.op("gate %s - %s" % (" ".join(hx(rng.fe()) for _ in range(6)), " ".join(p_.ref(rng.choice(ws_)) for _ in range(4))))
-    dense.append(("dense-6-random-coefficients", p_.src(), 26))
+    dense.append(("dense-6-random-coefficients", p_.src(), 32))
     p_ = Prog(); ws_ = [p_.w(rng.fe()) for _ in range(4)]
     for _ in range(22):
         p_.op(raw([wide_scalar() for _ in range(11)], None, [p_.ref(rng.choice(ws_)) for _ in range(4)]))
-    dense.append(("dense-11-wide-selectors-at-capacity", p_.src(), 26))
+    dense.append(("dense-11-wide-selectors-at-capacity", p_.src(), 32))
     progs += [src for (_, src, _) in dense]
     # 1. structural round trip: impl snapshot after compress+decompress == model relabelling
     r1 = ProgRunner(ctx, "C15")
@@ -129,7 +129,8 @@ def run(ctx, broken):
             cs.append({"line": prove_line(srs, deg, b"c15", draws, 3, s, routes=True), "tags": ["routes-deg-%d" % deg]})
     for (nm, src, deg) in dense:
         draws = [draw_hex(rng) for _ in range(14)]
-        cs.append({"line": prove_line(srs, deg, b"c15", draws, 3, src, routes=True), "tags": ["routes-" + nm]})
+        # the direct route must compile it (the instance itself need not be satisfied: the outcome is the unsatisfied-circuit error)
+        cs.append({"line": prove_line(srs, deg, b"c15", draws, 3, src, routes=True), "tags": ["routes-" + nm], "expect_prefix": "err:unsat"})
     for deg in range(1, 70 if ctx.tier == "quick" else 300):
         cs.append({"line": "maxcons %d %s" % (deg, srs), "tags": ["max-constraints"], "strip_first": True})
     # model prints max_constraints from the degree; impl prints "<max_degree> <max_constraints>"
